@@ -71,8 +71,12 @@ func world(thorough bool) {
 		add("finalize-then-fork-arrives", B[a1], SL(a2, 0, 0, 1, 2), B[a3], SL(a4, a2, 0, 1, 2), B[b1], B[b2], B[b3], B[b4], B[a5])
 		add("justify-both-forks", B[a1], B[a2], B[b1], B[b2], V(0, 0, a2), V(1, 0, a2), V(2, 0, a2), V(3, 0, b2), B[a3], B[b3], B[b4])
 	}
-	if thorough {
-		// every interleaving of length 7 of: next block of branch a, next block of branch b, next vote for b2,
+	{
+		genLen := 5
+		if thorough {
+			genLen = 8
+		}
+		// every interleaving of length genLen (quick 5, thorough 8) of: next block of branch a, next block of branch b, next vote for b2,
 		// next vote for a2 (votes in validator order, after their target)
 		aChain := []int{B[a1], B[a2], B[a3], B[a4], B[a5]}
 		bChain := []int{B[b1], B[b2], B[b3], B[b4]}
@@ -80,7 +84,7 @@ func world(thorough bool) {
 		va := []int{V(1, 0, a2), V(2, 0, a2), V(3, 0, a2)}
 		var rec func(h []int, ia, ib, ivb, iva int)
 		rec = func(h []int, ia, ib, ivb, iva int) {
-			if len(h) == 7 {
+			if len(h) == genLen {
 				add(fmt.Sprintf("gen-%d", len(hists)), h...)
 				return
 			}
